@@ -1,20 +1,17 @@
 (* C27 — Compiling and running any input never crashes (from the AST down; the ANTLR front end is explored by
-   the harness command `nsfront`, not modelled).  Proofs in Machine/SemSafe.v.
+   the harness command `nsfront`, not modelled).  Proofs in Machine/SemSafe.v, EnvProofs.v, RunProofs.v.
    Sem.run is a total Gallina function (termination is checked by Coq: structural recursion over the AST, no fuel),
-   with an explicit [Panic] outcome wherever the Go code would panic. *)
+   with an explicit [Panic] outcome wherever the Go code would dereference a nil amount. *)
 From Coq Require Import List ZArith QArith String Bool.
-From LV Require Import Machine.Syntax Machine.Allot Machine.Lex Machine.Sem Machine.SemSafe.
+From LV Require Import Machine.Syntax Machine.Allot Machine.Lex Machine.Sem Machine.SemSafe Machine.RunProofs.
 Import ListNotations.
 Open Scope Z_scope.
 Open Scope string_scope.
 
-(* FULL STATEMENT (refuted below): forall p given s, run p given s <> Panic.
-
-   Proved: a program WITHOUT balance() variables never panics, whatever the variables, balances and metadata;
-   and, for any program, executing the statements never panics once no variable holds a nil amount. *)
-Theorem C27_no_panic_partial : forall p given s, no_balance_vars p -> run p given s <> Panic.
+(* no program, no variable assignment, no store makes the (repaired: fixes/01) machine semantics panic *)
+Theorem C27_no_panic : forall p given s, run p given s <> Panic.
 Proof. exact run_no_panic. Qed.
-Print Assumptions C27_no_panic_partial.
+Print Assumptions C27_no_panic.
 
 Theorem C27_statements_no_panic : forall e, env_ok e -> forall l ms, exec_stmts e l ms <> Panic.
 Proof. exact exec_stmts_np. Qed.
@@ -25,22 +22,16 @@ Theorem C27_no_partial : forall p given s e, run p given s = Err e -> forall r, 
 Proof. intros p given s e H r H'. rewrite H in H'. discriminate. Qed.
 Print Assumptions C27_no_partial.
 
-(* Refutation, replayed on the real compiler + VM (known finding KF-C27-nil-balance-panic):
-     vars { monetary $b1 = balance(@a, USD)  monetary $b2 = balance(@a, EUR) }
-     send $b1 ( source = @a  destination = @b )
-   m.UnresolvedResourceBalances is keyed by account address: $b1 keeps Amount == nil and Funding.Take dereferences it. *)
-Definition c27_witness : program :=
-  {| pvars := [ {| vty := TMonetary; vname := "b1"; vorigin := OBalance (AccLit "a") (AssetLit "USD") |};
-                {| vty := TMonetary; vname := "b2"; vorigin := OBalance (AccLit "a") (AssetLit "EUR") |} ];
-     pstmts := [ Send (MonVar "b1") (VSrc (SAccount (AccLit "a") OdNone)) (DAccount (AccLit "b")) ] |}.
+(* regression of KF-C27-nil-balance-panic (fixes/01): two balance() variables on one account; the first is usable *)
+Example C27_two_balances_same_account :
+  match run {| pvars := [ {| vty := TMonetary; vname := "b1"; vorigin := OBalance (AccLit "a") (AssetLit "USD") |};
+                          {| vty := TMonetary; vname := "b2"; vorigin := OBalance (AccLit "a") (AssetLit "EUR") |} ];
+               pstmts := [ Send (MonVar "b1") (VSrc (SAccount (AccLit "a") OdNone)) (DAccount (AccLit "b")) ] |}
+            [] {| st_bal := [(("a", "USD"), 10); (("a", "EUR"), 5)]; st_meta := [] |} with
+  | Ok r => map pamt (all_postings r) | _ => [] end = [10].
+Proof. vm_compute. reflexivity. Qed.
 
-Theorem C27_refuted_nil_balance :
-  check c27_witness = true /\
-  run c27_witness [] {| st_bal := [(("a", "USD"), 10); (("a", "EUR"), 5)]; st_meta := [] |} = Panic.
-Proof. split; vm_compute; reflexivity. Qed.
-Print Assumptions C27_refuted_nil_balance.
-
-(* non-vacuity: a program with variables of several kinds satisfies the hypothesis and runs *)
+(* non-vacuity: a program with variables of several kinds runs *)
 Example C27_example :
   let p := {| pvars := [ {| vty := TAccount; vname := "acc"; vorigin := ONone |};
                          {| vty := TPortion; vname := "fee"; vorigin := OMeta (AccVar "acc") "fee" |} ];
